@@ -68,6 +68,8 @@ func (ts *Timers) withMap(x interface{}) error {
 	if err != nil {
 		return err
 	}
+	ts.Lock()
+	defer ts.Unlock()
 	if err = json.Unmarshal(js, &ts.Map); err != nil {
 		return err
 	}
@@ -79,10 +81,28 @@ func (ts *Timers) withMap(x interface{}) error {
 	return nil
 }
 
+// pendingTimers is what the timers machine's state holds: a view of
+// Timers.Map that serializes as that map, under the Timers' lock.
+//
+// The crew loop adds and removes entries while a previously
+// published state may still be in the hands of whatever consumes a
+// crew's results, so the map itself must not be handed to code that
+// reads it without the lock (such as a serializer).
+type pendingTimers struct {
+	ts *Timers
+}
+
+// MarshalJSON renders the pending timers as Timers.Map.
+func (p pendingTimers) MarshalJSON() ([]byte, error) {
+	p.ts.Lock()
+	defer p.ts.Unlock()
+	return json.Marshal(p.ts.Map)
+}
+
 // State creates a machine state that Timers.withMap can use.
 func (ts *Timers) State() *core.State {
 	return &core.State{
-		Bs: match.NewBindings().Extend("timers", ts.Map),
+		Bs: match.NewBindings().Extend("timers", pendingTimers{ts}),
 	}
 }
 
@@ -92,15 +112,20 @@ func (ts *Timers) State() *core.State {
 // data.
 func (ts *Timers) Start(ctx context.Context) error {
 	ts.c.Logf("Timers.Start")
+	ts.Lock()
 	for _, t := range ts.Map {
 		go t.run(ctx)
 	}
+	ts.Unlock()
 	return nil
 }
 
 func (ts *Timers) add(ctx context.Context, e *TimerEntry) error {
 	if _, have := ts.Map[e.Id]; have {
-		return ts.cancel(ctx, e.Id)
+		// Replace the pending timer.
+		if err := ts.cancel(ctx, e.Id); err != nil {
+			return err
+		}
 	}
 
 	ts.Map[e.Id] = e
@@ -127,11 +152,11 @@ func (ts *Timers) Add(ctx context.Context, id string, msg interface{}, d time.Du
 		timers: ts,
 	}
 
-	ts.add(ctx, e)
+	err := ts.add(ctx, e)
 
 	ts.Unlock()
 
-	return nil
+	return err
 }
 
 // run starts a timer that will execute the TimerEntry at the
@@ -142,19 +167,34 @@ func (te *TimerEntry) run(ctx context.Context) error {
 	t := time.NewTimer(te.At.Sub(time.Now()))
 	select {
 	case <-t.C:
+		// The Emitter hands the entry to the crew loop, which
+		// decides (see Timers.claim) if the timer is still
+		// pending and does the bookkeeping.  The crew's state
+		// and the Timers' map aren't touched here.
 		te.timers.c.Logf("Firing timer '%s'", te.Id)
 		te.timers.Emitter(ctx, te)
-		te.timers.Lock()
-		delete(te.timers.Map, te.Id)
-		te.timers.Unlock()
-		te.timers.c.Lock()
-		te.timers.changed()
-		te.timers.c.Unlock()
 	case <-te.Ctl:
 		te.timers.c.Logf("Canceling timer '%s'", te.Id)
 	case <-ctx.Done():
 	}
 	return nil
+}
+
+// claim removes te's entry if (and only if) te is still the timer
+// registered under its id, and reports whether it was.
+//
+// The entry is removed before the timer's message is processed, so
+// the id is free for whatever handles the message, and a timer that
+// was cancelled or replaced after it came due does not fire.
+func (ts *Timers) claim(te *TimerEntry) bool {
+	ts.Lock()
+	defer ts.Unlock()
+
+	if cur, have := ts.Map[te.Id]; !have || cur != te {
+		return false
+	}
+	delete(ts.Map, te.Id)
+	return true
 }
 
 func (ts *Timers) changed() {
